@@ -13,7 +13,21 @@ func nums(n int, sep string) string { return seqs2(n, sep, itoa) }
 
 func tri(n int) int { return n * (n + 1) / 2 }
 
-func scaleFamilies() []*scaleFam { return append(scaleSchemas(), specialFamilies()...) }
+func scaleFamilies() []*scaleFam {
+	all := append(scaleSchemas(), specialFamilies()...)
+	// families that exercise a sentence of two properties are run under both
+	for _, also := range [][2]string{{"a callee n frames below the function whose parameter it assigns", "C09"}, {"n pattern rules between a BEGIN and an END rule", "C07"}} {
+		for _, f := range all {
+			if f.Name == also[0] {
+				g := *f
+				g.Prop = also[1]
+				all = append(all, &g)
+				break
+			}
+		}
+	}
+	return all
+}
 
 func scaleSchemas() []*scaleFam {
 	one := []inFile{{Name: "in.json", Text: "[0]"}}
@@ -178,12 +192,13 @@ func scaleSchemas() []*scaleFam {
 		}},
 		{Prop: "C06", Name: "n nested parentheses, signs, negations and brackets", Max: 2000, QMax: 400, Build: func(n int) scaleCase {
 			prog := "BEGIN { print " + strings.Repeat("(", n) + "1" + strings.Repeat(")", n) + " + 1\nprint " + strings.Repeat("- ", n) + "1\nprint " + strings.Repeat("! ", n) + "true\nprint " +
-				strings.Repeat("[", n) + "1" + strings.Repeat("]", n) + strings.Repeat("[0]", n-1) + "\nprint 2 * " + strings.Repeat("(1 + ", n) + "1" + strings.Repeat(")", n) + " }\n"
+				strings.Repeat("[", n) + "1" + strings.Repeat("]", n) + strings.Repeat("[0]", n-1) + "\nprint 2 * " + strings.Repeat("(1 + ", n) + "1" + strings.Repeat(")", n) + " + 1\nprint 2 * " + strings.Repeat("(", n) + "3" + strings.Repeat(")", n) + " + 1, 10 - " + strings.Repeat("(", n) + "3" + strings.Repeat(")", n) + " - 2, 2 * f(" + strings.Repeat("g(", n) + "3" + strings.Repeat(")", n) + ") + 1, 10 - a" + strings.Repeat("[0]", n) + " - 2 }\nfunction f(x) { return x }\nfunction g(x) { return x }\nBEGIN { }\n"
+			prog = "BEGIN { a" + strings.Repeat("[0]", n) + " = 3 }\n" + prog
 			sign, neg := "1", "true"
 			if n%2 == 1 {
 				sign, neg = "-1", "false"
 			}
-			return scaleCase{Prog: prog, Want: fmt.Sprintf("2\n%s\n%s\n[1]\n%d\n", sign, neg, 2*(n+1))}
+			return scaleCase{Prog: prog, Want: fmt.Sprintf("2\n%s\n%s\n[1]\n%d\n7 5 7 5\n", sign, neg, 2*(n+1)+1)}
 		}},
 		// ---------------------------------------------------------------- C05: operators on long operands
 		{Prop: "C05", Name: "strings of n bytes as operands", Max: 70000, QMax: 5000, Build: func(n int) scaleCase {
@@ -374,6 +389,7 @@ func scaleSchemas() []*scaleFam {
 			prog := "BEGINFILE { c++ }\nEND { print c }\n"
 			return scaleCase{Prog: prog, Files: []inFile{{Name: "in.json", Text: in}}, Want: itoa(n) + "\n", CLI: n%64 < 3 || n < 80}
 		}},
+		{Prop: "C03", Name: "a stream of n values handed out one value per Read, output watched at every Read", Max: 3000, QMax: 600, Custom: c03LongStream},
 		{Prop: "C03", Name: "n complete values in front of a malformed one", Max: 70000, QMax: 5000, Build: func(n int) scaleCase {
 			in := seqs2(n, "\n", func(k int) string { return "[" + itoa(k) + "]" }) + "\n[1, }"
 			prog := "{ print $ }\nEND { print \"end\" }\n"
